@@ -1,5 +1,5 @@
 (* Dispatcher used by the correspondence drivers: function number -> wire -> wire. *)
-From DD Require Import Base.Wire Model.Lexer Model.Writer Spec.StdReader Run.NodeWire Run.CheckWire Run.OptWire Run.TypeWire Run.RwWire Run.SchedWire Run.CoreWire.
+From DD Require Import Base.Wire Model.Lexer Model.Writer Spec.StdReader Run.NodeWire Run.CheckWire Run.OptWire Run.TypeWire Run.RwWire Run.SchedWire Run.CoreWire Run.DdTopWire.
 
 Definition r_lexeme (w : wire) : lexeme :=
   match w with WN 0%Z => LPar | WN _ => RPar | WL _ => Tok (r_str w) end.
@@ -25,6 +25,7 @@ Definition dispatch (f : Z) (w : wire) : wire :=
          else if (Z.leb 90 f && Z.ltb f 100)%Z then dispatch_core f w
          else if (Z.eqb f 80)%Z then dispatch_sched f w
          else if (Z.eqb f 81)%Z then dispatch_ddmin f w
+         else if (Z.eqb f 82)%Z then dispatch_ddtop f w
          else if (Z.leb 59 f && Z.ltb f 80)%Z then dispatch_rw f w
          else if (Z.leb 51 f && Z.ltb f 59)%Z then dispatch_smtlib f w
          else if (Z.eqb f 45)%Z then dispatch_cli f w
